@@ -1032,6 +1032,32 @@ func c07Check(c *kit.Case, where string, n *c07Node, pods []*c07Pod, pre, post *
 	c.Count("ledger_checks", 1)
 }
 
+func c07Restrict(m map[schedulingv1alpha1.DeviceType]sets.Int) string {
+	if m == nil {
+		return "all"
+	}
+	var parts []string
+	for _, t := range c07Types {
+		if st, ok := m[t]; ok {
+			parts = append(parts, fmt.Sprintf("%s%v", t, st.List()))
+		}
+	}
+	return strings.Join(parts, ",")
+}
+
+// c07OtherFit: every requested type other than GPU has enough fitting devices (both-units view is irrelevant there).
+func c07OtherFit(types []schedulingv1alpha1.DeviceType, sh *c07Shape, n *c07Node, used map[c07Key]int64) bool {
+	for _, t := range types {
+		if t == c07GPU {
+			continue
+		}
+		if e, _ := c07Eligible(n, t, sh.want[t].per, used, nil, false); e < sh.want[t].count {
+			return false
+		}
+	}
+	return true
+}
+
 // c07Eligible counts, independently of the allocator, the devices of one type that could serve one
 // per-device request in the given state: reported healthy by the last inventory and with at least
 // the requested amount of every requested resource free (total - sum of live allocations).
@@ -1217,6 +1243,8 @@ func TestVerifC07Ledger(t *testing.T) {
 				var reqSet sets.Int
 				path := "direct"
 				var allocs apiext.DeviceAllocations
+				var rawGrant apiext.DeviceAllocations // what the allocator returned when the step after it (fillGPUTotalMem) refused
+				var restrict map[schedulingv1alpha1.DeviceType]sets.Int // devices the request may use (nil entry = all of the type)
 				var okAlloc bool
 				var reason string
 				if viaPlugin {
@@ -1255,7 +1283,10 @@ func TestVerifC07Ledger(t *testing.T) {
 							}
 							if reqSet.Len() > 0 {
 								required = map[schedulingv1alpha1.DeviceType]sets.Int{t: reqSet}
+								restrict = required
 								path = "direct-required"
+							} else {
+								reqSet = nil
 							}
 						}
 					}
@@ -1279,12 +1310,32 @@ func TestVerifC07Ledger(t *testing.T) {
 					if r.Bool() {
 						al.scorer = pl.scorer
 					}
+					if required == nil && n.topo && sh.want[c07GPU] != nil && sh.joint == nil && r.Pct(12) {
+						// NUMA affinity of the scheduling cycle (what Plugin.allocate takes from the topology manager's
+						// store): only devices on the chosen NUMA node may be used, for every requested type
+						numa := r.Intn(2)
+						al.numaNodes, _ = bitmask.NewBitMask(numa)
+						restrict = map[schedulingv1alpha1.DeviceType]sets.Int{}
+						for t := range sh.want {
+							allowed := sets.NewInt()
+							for _, d := range n.devsOf(t) {
+								if int(d.numa) == numa {
+									allowed.Insert(int(d.minor))
+								}
+							}
+							restrict[t] = allowed
+						}
+						sh.plain = false
+						sh.class += "@numa"
+						path = "direct-numa"
+					}
 					nd.lock.RLock()
 					res, st := al.Allocate(required, preferred, nil, preemptible)
 					okAlloc, reason = st.IsSuccess(), st.Message()
 					if okAlloc {
+						raw := c07CopyAllocs(res)
 						if err := fillGPUTotalMem(res, nd); err != nil {
-							okAlloc, reason = false, err.Error()
+							okAlloc, reason, rawGrant = false, "allocator granted "+c07Allocs(raw)+", then: "+err.Error(), raw
 						}
 					}
 					nd.lock.RUnlock()
@@ -1316,8 +1367,8 @@ func TestVerifC07Ledger(t *testing.T) {
 				for _, t := range typesSorted {
 					w := sh.want[t]
 					var rs sets.Int
-					if required != nil {
-						rs = required[t]
+					if restrict != nil {
+						rs = restrict[t]
 					}
 					e, okm := c07Eligible(n, t, w.per, usedBefore, rs, false)
 					if e2, _ := c07Eligible(n, t, w.per, usedBefore, rs, true); e2 < w.count {
@@ -1338,14 +1389,129 @@ func TestVerifC07Ledger(t *testing.T) {
 						eligClass += "spare,"
 					}
 				}
-				c.Op("allocate %s(gen %d) on %s via %s: %s %s hints=%v joint=%v required=%v -> ok=%v %s [%s] eligible=%s", p.name, p.gen, n.name, path, sh.class, c07RL(sh.requests),
-					sh.hints != nil, sh.joint != nil, reqSet.List(), okAlloc, c07Allocs(allocs), reason, eligClass)
-				c.Seen("alloc", sh.class, path, okAlloc, eligClass, liveOn(n), invClass(n))
+				// ---- partitioned nodes. honoring: the pod carries a partition spec or the node says Honor - then whole
+				// GPUs may only come as a partition of the node's table. freePartition: the table has a partition of the
+				// wanted size whose GPUs are all healthy, allowed and completely unused in the pre-state.
+				wGPU := sh.want[c07GPU]
+				honoring := wGPU != nil && (sh.partSpec != nil || (n.part != "" && n.honor))
+				freePartition, brokenWithSibling := false, false
+				if wGPU != nil && n.part != "" {
+					usedMinor := map[int]bool{}
+					for k := range usedBefore {
+						if k.t == c07GPU {
+							usedMinor[k.minor] = true
+						}
+					}
+					for _, minors := range n.table[wGPU.count] {
+						all, good, bad := true, 0, 0
+						for _, m := range minors {
+							if healthy[c07DevKey{c07GPU, m}] && eligOK[c07GPU][m] {
+								good++
+							} else if !healthy[c07DevKey{c07GPU, m}] {
+								bad++
+							}
+							if !eligOK[c07GPU][m] || usedMinor[m] {
+								all = false
+							}
+						}
+						if all {
+							freePartition = true
+						}
+						if good > 0 && bad > 0 {
+							brokenWithSibling = true
+						}
+					}
+					c.Count("allocate_on_partitioned_node", 1)
+					if brokenWithSibling {
+						c.Count("allocate_with_partition_of_unhealthy_member_and_healthy_sibling", 1)
+					}
+				}
+				partClass := ""
+				if n.part != "" && wGPU != nil {
+					partClass = fmt.Sprintf("part=%s honor=%v free-partition=%v broken=%v", n.part, honoring, freePartition, brokenWithSibling)
+				}
+				c.Op("allocate %s(gen %d) on %s via %s: %s %s hints=%v joint=%v allowed=%s %s -> ok=%v %s [%s] eligible=%s", p.name, p.gen, n.name, path, sh.class, c07RL(sh.requests),
+					sh.hints != nil, sh.joint != nil, c07Restrict(restrict), partClass, okAlloc, c07Allocs(allocs), reason, eligClass)
+				c.Seen("alloc", sh.class, path, okAlloc, eligClass, liveOn(n), invClass(n), partClass)
 				c.Count("allocate_"+path, 1)
+
+				// checkGrant: what a successful allocation must look like (success direction of the statement)
+				checkGrant := func(allocs apiext.DeviceAllocations) {
+					for t := range allocs {
+						if sh.want[t] == nil && len(allocs[t]) > 0 {
+							c.Fail("C07/allocate/unrequested-type", "request %s got devices of type %s it did not ask for: %s", sh.class, t, c07Allocs(allocs))
+						}
+					}
+					for _, t := range typesSorted {
+						w := sh.want[t]
+						got := allocs[t]
+						switch {
+						case w.anyCount:
+							if len(got) == 0 {
+								c.Fail("C07/allocate/wrong-count", "request %s succeeded without any %s device", sh.class, t)
+							}
+						case w.atLeast:
+							if len(got) < w.count {
+								c.Fail("C07/allocate/wrong-count", "request %s wants at least %d %s devices, got %d: %s", sh.class, w.count, t, len(got), c07Allocs(allocs))
+							}
+						default:
+							if len(got) != w.count {
+								c.Fail("C07/allocate/wrong-count", "request %s %s wants %d %s device(s), the successful allocation has %d: %s", sh.class, c07RL(sh.requests), w.count, t, len(got), c07Allocs(allocs))
+							}
+						}
+						seen := map[int32]bool{}
+						for _, a := range got {
+							if seen[a.Minor] {
+								c.Fail("C07/allocate/duplicate-minor", "request %s: %s minor %d appears twice in %s", sh.class, t, a.Minor, c07Allocs(allocs))
+							}
+							seen[a.Minor] = true
+							if !healthy[c07DevKey{t, int(a.Minor)}] {
+								c.Fail("C07/allocate/unhealthy-device", "request %s was given %s minor %d, which the last inventory does not report healthy (%s); inventory %s", sh.class, t, a.Minor, c07Allocs(allocs), n.describe())
+							}
+							if restrict != nil && restrict[t] != nil && !restrict[t].Has(int(a.Minor)) {
+								c.Fail("C07/allocate/outside-allowed-devices", "request %s restricted to %s was given %s minor %d (%s)", sh.class, c07Restrict(restrict), t, a.Minor, c07Allocs(allocs))
+							}
+							if !eligOK[t][int(a.Minor)] {
+								c.Fail("C07/allocate/not-enough-free", "request %s %s (per device %s) was given %s minor %d, which did not have that much free before the allocation; inventory %s", sh.class, c07RL(sh.requests), c07RL(w.per), t, a.Minor, n.describe())
+							}
+							for name, q := range w.per {
+								g := a.Resources[name]
+								if g.Cmp(q) < 0 {
+									c.Fail("C07/allocate/allocation-below-request", "request %s: allocation on %s minor %d records %s=%s, the per-device request is %s", sh.class, t, a.Minor, name, g.String(), q.String())
+								}
+							}
+						}
+					}
+				}
 				if !okAlloc {
 					refused = true
 					c.Count("allocate_refused", 1)
-					if sh.plain {
+					if n.part != "" && wGPU != nil {
+						c.Count("refused_on_partitioned_node", 1)
+					}
+					if rawGrant != nil {
+						// the allocator itself had granted; its result must satisfy the statement all the same
+						c.Count("refused_after_allocator_grant", 1)
+						checkGrant(rawGrant)
+						return
+					}
+					switch {
+					case honoring:
+						// only the narrow converse: a request for N whole-or-less GPUs must not be refused while a table
+						// partition of size N is entirely healthy, allowed and unused (then the request fits whether it is
+						// served partition-wise or device-wise), the partitions of that size form one score class (so
+						// Restricted and BestEffort look at the same candidates) and every other requested type fits
+						c.Count("refusals_with_partitions_honored", 1)
+						if freePartition && !n.mixedScore[wGPU.count] && restrict == nil && sh.hints == nil && sh.joint == nil && c07OtherFit(typesSorted, sh, n, usedBefore) {
+							c.Fail("C07/allocate/refused-although-free-partition-exists", "node %s: request %s %s refused (%s) although the node's partition table has a partition of %d GPU(s) that are all healthy and unused; inventory %s", n.name, sh.class, c07RL(sh.requests), reason, wGPU.count, n.describe())
+						}
+						if !freePartition && allFit {
+							c.Count("converse_misses_partition_honored_refused_with_enough_single_devices", 1)
+						}
+						if freePartition {
+							c.Count("partition_converse_premise_held", 1)
+						}
+					case sh.plain:
 						c.Count("refusals_checked_against_eligible_count", 1)
 						if allFit && !allFitBothUnits {
 							c.Count("converse_misses_refused_gpu_memory_short_in_the_other_unit", 1)
@@ -1356,7 +1522,7 @@ func TestVerifC07Ledger(t *testing.T) {
 						if strings.Contains(eligClass, "short-by-1") {
 							c.Count("refused_one_device_short", 1)
 						}
-					} else {
+					default:
 						c.Count("refused_constrained_shape", 1)
 						if allFit {
 							c.Count("converse_misses_constrained_refused_with_enough_plain_eligible", 1)
@@ -1366,57 +1532,19 @@ func TestVerifC07Ledger(t *testing.T) {
 				}
 				granted = true
 				c.Count("allocate_granted", 1)
-				if !sh.plain {
+				if n.part != "" && wGPU != nil {
+					c.Count("granted_on_partitioned_node", 1)
+					if honoring && wGPU.count >= 2 {
+						c.Count("granted_multi_gpu_with_partitions_honored", 1)
+					}
+				}
+				if !sh.plain || honoring {
 					c.Count("granted_constrained_shape", 1)
 				}
 				if strings.Contains(eligClass, "exact") {
 					c.Count("granted_with_exactly_enough_devices", 1)
 				}
-				for t := range allocs {
-					if sh.want[t] == nil && len(allocs[t]) > 0 {
-						c.Fail("C07/allocate/unrequested-type", "request %s got devices of type %s it did not ask for: %s", sh.class, t, c07Allocs(allocs))
-					}
-				}
-				for _, t := range typesSorted {
-					w := sh.want[t]
-					got := allocs[t]
-					switch {
-					case w.anyCount:
-						if len(got) == 0 {
-							c.Fail("C07/allocate/wrong-count", "request %s succeeded without any %s device", sh.class, t)
-						}
-					case w.atLeast:
-						if len(got) < w.count {
-							c.Fail("C07/allocate/wrong-count", "request %s wants at least %d %s devices, got %d: %s", sh.class, w.count, t, len(got), c07Allocs(allocs))
-						}
-					default:
-						if len(got) != w.count {
-							c.Fail("C07/allocate/wrong-count", "request %s %s wants %d %s device(s), the successful allocation has %d: %s", sh.class, c07RL(sh.requests), w.count, t, len(got), c07Allocs(allocs))
-						}
-					}
-					seen := map[int32]bool{}
-					for _, a := range got {
-						if seen[a.Minor] {
-							c.Fail("C07/allocate/duplicate-minor", "request %s: %s minor %d appears twice in %s", sh.class, t, a.Minor, c07Allocs(allocs))
-						}
-						seen[a.Minor] = true
-						if !healthy[c07DevKey{t, int(a.Minor)}] {
-							c.Fail("C07/allocate/unhealthy-device", "request %s was given %s minor %d, which the last inventory does not report healthy; inventory %s", sh.class, t, a.Minor, n.describe())
-						}
-						if reqSet.Len() > 0 && !reqSet.Has(int(a.Minor)) {
-							c.Fail("C07/allocate/outside-allowed-devices", "request %s restricted to minors %v was given %s minor %d", sh.class, reqSet.List(), t, a.Minor)
-						}
-						if !eligOK[t][int(a.Minor)] {
-							c.Fail("C07/allocate/not-enough-free", "request %s %s (per device %s) was given %s minor %d, which did not have that much free before the allocation; inventory %s", sh.class, c07RL(sh.requests), c07RL(w.per), t, a.Minor, n.describe())
-						}
-						for name, q := range w.per {
-							g := a.Resources[name]
-							if g.Cmp(q) < 0 {
-								c.Fail("C07/allocate/allocation-below-request", "request %s: allocation on %s minor %d records %s=%s, the per-device request is %s", sh.class, t, a.Minor, name, g.String(), q.String())
-							}
-						}
-					}
-				}
+				checkGrant(allocs)
 				p.alloc = allocs
 				p.memUnit, p.gpuPer = sh.memUnit, nil
 				if w := sh.want[c07GPU]; w != nil {
